@@ -2,21 +2,21 @@
 # bin/confirm_seed.sh <ID> [demo-dir] : confirm a seeded change in its scratch worktree /tmp/mut/<ID>
 #   unchanged tree: demo passes; changed tree: builds, 49 tests pass, demo fails.  Copies the artefacts to seeded/<ID>/.
 set -u
-ID=$1; WT=/tmp/mut/$ID; DEMO=${2:-/tmp/mut/$ID-demo}
+ID=$1; MUT_BASE=${MUT_BASE:-/tmp/mut}; WT=$MUT_BASE/$ID; DEMO=${2:-$MUT_BASE/$ID-demo}; OUT=${SEED_NAME:-$ID}
 export RUST_BACKTRACE=0
 cd $WT || exit 2
 git checkout -q -- . && git clean -fdq -e target
 cargo build --offline >/dev/null 2>&1 || { echo "UNCHANGED BUILD FAILED"; exit 2; }
-bash $DEMO/demo.sh $WT/target/debug/rapidquilt >/tmp/mut/$ID.clean.log 2>&1; CLEAN=$?
+bash $DEMO/demo.sh $WT/target/debug/rapidquilt >$MUT_BASE/$ID.clean.log 2>&1; CLEAN=$?
 git apply $DEMO/patch.diff || { echo "PATCH DOES NOT APPLY"; exit 2; }
-cargo build --offline >/tmp/mut/$ID.build.log 2>&1 || { echo "CHANGED BUILD FAILED"; tail -5 /tmp/mut/$ID.build.log; exit 2; }
+cargo build --offline >$MUT_BASE/$ID.build.log 2>&1 || { echo "CHANGED BUILD FAILED"; tail -5 $MUT_BASE/$ID.build.log; exit 2; }
 TESTS=$(cargo test --offline 2>&1 | grep -E "^test result" | awk '{p+=$4; f+=$6} END {print p" passed "f" failed"}')
-bash $DEMO/demo.sh $WT/target/debug/rapidquilt >/tmp/mut/$ID.mut.log 2>&1; MUT=$?
+bash $DEMO/demo.sh $WT/target/debug/rapidquilt >$MUT_BASE/$ID.mut.log 2>&1; MUT=$?
 echo "$ID: demo on unchanged tree: exit $CLEAN; tests with change: $TESTS; demo on changed tree: exit $MUT; lines changed: $(grep -c '^[-+][^-+]' $DEMO/patch.diff)"
 if [ $CLEAN -eq 0 ] && [ $MUT -ne 0 ] && [ "$TESTS" = "49 passed 0 failed" ]; then
-  mkdir -p /verif/seeded/$ID && cp $DEMO/patch.diff /verif/seeded/$ID/ && cp -r $DEMO/demo.sh /verif/seeded/$ID/ && cp $DEMO/NOTES.md /verif/seeded/$ID/ 2>/dev/null
-  for f in $DEMO/*; do case "$f" in *.rs|*.py|*.patch|*.txt) cp "$f" /verif/seeded/$ID/;; esac; done
-  echo "CONFIRMED -> /verif/seeded/$ID"
+  mkdir -p /verif/seeded/$OUT && cp $DEMO/patch.diff /verif/seeded/$OUT/ && cp -r $DEMO/demo.sh /verif/seeded/$OUT/ && cp $DEMO/NOTES.md /verif/seeded/$OUT/ 2>/dev/null
+  for f in $DEMO/*; do case "$f" in *.rs|*.py|*.patch|*.txt) cp "$f" /verif/seeded/$OUT/;; esac; done
+  echo "CONFIRMED -> /verif/seeded/$OUT"
 else
   echo "NOT CONFIRMED"; exit 1
 fi
